@@ -457,7 +457,15 @@ func main() {
 		cases = append(cases, genCase(rng.Fork("case"), maxOps, true))
 	}
 	res := make([]obs, len(cases))
-	common.Parallel(len(cases), 16, func(i int) { res[i] = runCase(hx, i, cases[i]) })
+	// a second Hydrex instance on the same SDK (registers the patterns again): every third case uses it
+	hx2 := hydrex.New(sdk)
+	common.Parallel(len(cases), 16, func(i int) {
+		h := hx
+		if i%3 == 2 {
+			h = hx2
+		}
+		res[i] = runCase(h, i, cases[i])
+	})
 	for i, c := range cases {
 		nt := classify(run, c)
 		run.Hist("kind_" + c.Kind)
